@@ -30,6 +30,11 @@ CLAIMED = {
    text='Proof. bisect_total: on ANY finite linear order of parameter values (in particular the doubles), for ANY length function, target and tolerance, if the midpoint stays inside its interval the repaired loop returns by the tolerance or the stall exit and never reaches the raise after maxits (budget > number of grid points between the ends); bisect_ret_close: a tolerance exit has |s(t)-s| < s_tol; bisect_range: the result lies between the ends; the pre-repair loop is refuted (for every n it runs to maxits on a two-point grid). Over any ordered field: s outside [0,L] gives ValueError, ilength(0)=0, ilength(L)=1, on Lines t=s/L is in [0,1], inverts the length exactly and is monotone. The model (segment, Line and Path branches incl. boundary values) is executed against the real inv_arclength on exact Fraction stubs, and the Float instance of the same definition is compared bit-for-bit with the real loop in the regime where the interval shrinks to adjacent doubles.',
    note='Trusted: kernel + standard axioms; correspondence runner; curve.length is an input (C06). Not proved: that IEEE halving needs < maxits iterations (exercised bit-exactly, ~1100 steps); monotonicity and the inverse relation for curves rest on a monotone length function and are sampled on real curves at scales 1e-3..1e6.',
    ref='7 C07'),
+ 'C08': dict(
+   technique='Lean 4 proof: extreme-value + Fermat argument over R on a hand model of bezier_real_minmax whose arithmetic is bridged to definitions traced from bezier.py; list lemmas for Python min/max and Path.bbox; exact rational correspondence with math.sqrt replaced by an exact root',
+   text='Proof. For a cubic coordinate with non-vanishing cubic term (the route CubicBezier.bbox takes): the traced denom/delta/tau/r1/r2 are the model\'s (bridges); denom*a\'(t) = -3((denom t - tau)^2 - delta) (ring), hence every interior critical point equals r1 or r2 when delta >= 0 and there is none when delta < 0; by compactness of [0,1] and Fermat, every value a(t), 0<=t<=1, lies between the min and max over the candidates the code evaluates (containment) and both bounds are values at parameters in [0,1] (each side of the box is touched). Path.bbox is proved to be the union of the segment boxes with every side attained by a segment. When the cubic term vanishes the coefficients handed to the root finder are proved to be the derivative\'s. The model is run against the real bezier_real_minmax on exact rationals (two real / complex / out-of-range critical points, degenerate cubics) and Path.bbox; a sampler checks containment (1e-9) and tightness (1e-5) for all four kinds incl. degree-elevated cubics and arcs with nearly full turns.',
+   note='Trusted: kernel + standard axioms; translator; math.sqrt. Conditional/sampled only: np.roots route (quadratics, degenerate cubic coordinates) and Arc.bbox; float rounding.',
+   ref='7 C08'),
  'C09': dict(
    technique='Lean 4 proof: ring/field identities on reversed/split/cropped traced from path.py (regenerated each run); hand model of Path.cropped index logic tied by exact Fraction correspondence, defect witnesses by kernel evaluation',
    text='Proof. For Line/Quadratic/Cubic: reversed().point(u)=point(1-u) and reversed control points; split(t) pieces are the restrictions to [0,t],[t,1] and meet at point(t); cropped(0,t1), cropped(t0,1) and interior cropped(t0,t1) are point(t0+u(t1-t0)) (field identity, 1-t0 != 0), all as polynomial identities over any field of characteristic 0 on definitions regenerated from the running code. Path.reversed: order/involution/length lemmas. Path.cropped: hand model (T2t lookups, isclose snaps, three assembly branches, wrap-around) executed against the real method on stub segments with exact Fraction lengths (incl. equal segments, joints, T within 1e-10 of joints); the pre-repair behaviour for T1=0 is refuted by a kernel-checked witness. Sampler on real segments/paths of all four kinds incl. arcs.',
